@@ -39,6 +39,11 @@ def gen_cases(run):
         spec = {"g": g, "budget": H.gen_budget(rng, g), "cfgs": H.gen_configs(rng, g), "main_kind": kind, "seed": rng.randrange(10 ** 6)}
         if rng.random() < 0.2:
             spec["types"] = {"drop_last": rng.choice(["np", "int"])}  # drop_last as numpy bool / 0-1 int (the constructor takes it by truthiness)
+        elif kind == "rec" and rng.random() < 0.2:
+            # built with decoy values, brought to this configuration through the public attributes before the first iteration
+            spec["reconfig"] = {k_: True for k_ in rng.sample(["batch", "budget", "main"], rng.randint(1, 3))}
+            if "budget" in spec["reconfig"]:
+                spec["reconfig"]["budget"] = rng.choice(["zero", "other", "same-kind"])
         if list(spec["budget"].values())[0] == 0:
             spec["_trivial"] = True
         yield spec
@@ -54,7 +59,7 @@ def run_case(run, spec):
     M = g["M"]
     if spec["main_kind"] == "torch_dist2":
         M = g["M"]
-    ok, built = call_real(run, lambda: H.build_real(_geom(spec), budget, cfgs, spec["seed"], spec["main_kind"], types=spec.get("types")), crash_key="ctor-crash", what="InterleavedSampler(...)")
+    ok, built = call_real(run, lambda: H.build_real(_geom(spec), budget, cfgs, spec["seed"], spec["main_kind"], types=spec.get("types"), reconfig=spec.get("reconfig")), crash_key="ctor-crash", what="InterleavedSampler(...)")
     if not ok:
         return
     sampler, main, sides, events = built
@@ -136,7 +141,7 @@ def run_case(run, spec):
             return
 
     # ---- the batch sampler view (second real execution on a fresh sampler)
-    ok, built2 = call_real(run, lambda: H.build_real(gm, budget, cfgs, spec["seed"], spec["main_kind"], types=spec.get("types")), crash_key="ctor-crash", what="InterleavedSampler(...)")
+    ok, built2 = call_real(run, lambda: H.build_real(gm, budget, cfgs, spec["seed"], spec["main_kind"], types=spec.get("types"), reconfig=spec.get("reconfig")), crash_key="ctor-crash", what="InterleavedSampler(...)")
     if not ok:
         return
     s2 = built2[0]
@@ -185,7 +190,7 @@ def run_case(run, spec):
     # ---- two live iterators over ONE sampler object, advanced alternately: each is the whole stream (the counters of an iteration belong
     #      to that iteration, not to the sampler object)
     if spec["main_kind"] == "rec" and spec["seed"] % 3 == 1 and len(mdl["events"]) <= 4000:
-        ok, built3 = call_real(run, lambda: H.build_real(gm, budget, cfgs, spec["seed"], "rec", types=spec.get("types")), crash_key="ctor-crash", what="InterleavedSampler(...)")
+        ok, built3 = call_real(run, lambda: H.build_real(gm, budget, cfgs, spec["seed"], "rec", types=spec.get("types"), reconfig=spec.get("reconfig")), crash_key="ctor-crash", what="InterleavedSampler(...)")
         if not ok:
             return
         s3 = built3[0]
